@@ -90,6 +90,8 @@ var c04Plan = []planEntry{
 	{spaces.Inj, 4, 5},
 	{spaces.XEnt, 4, 5},
 	{spaces.XPhrase, 4, 5},
+	{spaces.XInfo, 4, 5},
+	{spaces.XRefHead, 5, 6},
 	{spaces.XWs, 4, 5},
 }
 
@@ -125,6 +127,18 @@ func init() {
 					in := x.Tokens(sp, n)
 					x.InFlight(sp.Name, in)
 					c04Driver(x, in)
+				})
+			}
+			// Deep emphasis strings: the delimiter stack with its search bounds needs
+			// a dozen and more symbols before entries are deleted and searched again;
+			// only Parse and one Render are run here to afford that depth.
+			for _, p := range []planEntry{{spaces.Emph4, 12, 14}, {spaces.Emph3, 14, 16}} {
+				sp := p.sp
+				n := c.Pick(p.quick, p.thorough)
+				c.Explore(sp.Name+"-parse", fmt.Sprintf("all inputs of <=%d tokens over %q: Parse and default Render only", n, sp.Tokens), -1, n, func(x *X) {
+					in := x.Tokens(sp, n)
+					x.InFlight(sp.Name+"-parse", in)
+					c04ParseOnly(x, in)
 				})
 			}
 			fams := spaces.Families()
@@ -167,6 +181,39 @@ var c04Filters = []filterPred{
 	{"GFM", cm.FilterTagGFM},
 	{"always", func([]byte) bool { return true }},
 	{"never", func([]byte) bool { return false }},
+}
+
+// c04ParseOnly runs Parse and one Render under the step bound.
+func c04ParseOnly(x *X, in []byte) {
+	bound := fuelBound(len(in))
+	var blocks []*cm.RootBlock
+	var refs cm.ReferenceMap
+	steps, p, v, e := runOp(bound, func() { blocks, refs = cm.Parse(clone(in)) })
+	x.Validated()
+	x.Max("max_steps_Parse", steps)
+	if e {
+		x.Fail("does-not-terminate", "Parse", in, "Parse executed more than %d instrumented statements on a %d-byte input (step bound)", bound, len(in))
+		return
+	}
+	if p {
+		x.Fail("panic", "Parse", in, "Parse panicked: %v", v)
+		return
+	}
+	steps, p, v, e = runOp(bound, func() { renderHTML(&cm.HTMLRenderer{ReferenceMap: refs}, blocks) })
+	x.Max("max_steps_Render", steps)
+	if e {
+		x.Fail("does-not-terminate", "Render/default", in, "Render executed more than %d instrumented statements (step bound)", bound)
+		return
+	}
+	if p {
+		x.Fail("panic", "Render/default", in, "Render panicked: %v", v)
+		return
+	}
+	if len(in) > 0 && strings.ContainsRune("*_", rune(in[len(in)-1])) {
+		x.Nontrivial()
+	}
+	x.Outcome(tree.Hash64(tree.Dump(blocks, nil, 0)))
+	x.Sample(q(in))
 }
 
 func c04Driver(x *X, in []byte) {
